@@ -111,7 +111,7 @@ def run(ctx):
         for o in lo:
             if o.kind == 'call' and o.key == 'std::fs::Metadata::len':
                 mo = call_arg_origins(pfl, o.bb, 0)
-                len_ok = any(x.kind == 'call' and x.key == 'std::fs::metadata' and
+                len_ok = any(x.kind == 'call' and x.key in ('std::fs::metadata', 'std::path::Path::metadata') and
                              all(y.kind == 'param' and y.key == local_i for y in call_arg_origins(pfl, x.bb, 0)) for x in mo)
     ho = pfl.origins(req[1]['ops'][f.index('hash')])
     po = pfl.origins(req[1]['ops'][f.index('path')])
@@ -250,7 +250,8 @@ def r5(ctx, F):
         ctx.missing('C13.R5', 'hub::split_target')
     sfl = flow_of(s)
     somes = ok_assign_blocks(s, 'Some')
-    finds = [(fb, ft) for fb, ft in sfl.calls(lambda c: c.endswith('::find')) if any(o.kind == 'const' and o.key == ord(':') for o in sfl.origins(ft['args'][1]))]
+    # the first colon: t.find(':') or t.split_once(':') (both stop at the FIRST one)
+    finds = [(fb, ft) for fb, ft in sfl.calls(lambda c: c.endswith('::find') or c.endswith('::split_once')) if any(o.kind == 'const' and o.key == ord(':') for o in sfl.origins(ft['args'][1]))]
     empt = sfl.calls(lambda c: c.endswith('::is_empty'))
     cont = [(cb, ct) for cb, ct in sfl.calls(lambda c: c.endswith('::contains')) if any(o.kind == 'const' and o.key == ord('/') for o in sfl.origins(ct['args'][1]))]
     good = bool(somes) and len(finds) == 1 and len(empt) == 1 and len(cont) == 1
